@@ -20,7 +20,8 @@ pub enum Case {
     /// hazmat: f in {cipher_round, equiv_inv_cipher_round, mix_columns, inv_mix_columns} on one block
     Hazmat { f: u8, block: Vec<u8>, rk: Vec<u8>, #[serde(default)] be: u8 },
     /// hazmat *_par on eight (block, key) pairs: f in {0 cipher_round_par, 1 equiv_inv_cipher_round_par}
-    HazmatPar { f: u8, blocks: Vec<u8>, rks: Vec<u8>, #[serde(default)] be: u8 },
+    HazmatPar { f: u8, blocks: Vec<u8>, rks: Vec<u8>, #[serde(default)] be: u8, /// byte offset of the two Block8 arguments inside an aligned buffer (Block8 has alignment 1)
+        #[serde(default)] off: u8 },
 }
 
 pub fn rc2_key(len: usize, kv: u8) -> Vec<u8> {
@@ -147,20 +148,28 @@ pub fn observe(c: &Case) -> Vec<u8> {
             }
         }
         #[cfg(feature = "allfeat")]
-        Case::HazmatPar { f, blocks, rks, be } => {
+        Case::HazmatPar { f, blocks, rks, be, off } => {
             macro_rules! go {
                 ($m:ident) => {{
-                    let mut bs = $m::hazmat::Block8::default();
-                    let mut ks = $m::hazmat::Block8::default();
-                    for i in 0..8 {
-                        bs[i].copy_from_slice(&blocks[16 * i..16 * i + 16]);
-                        ks[i].copy_from_slice(&rks[16 * i..16 * i + 16]);
-                    }
+                    // the two 128-byte arguments live at byte offset `off` inside 16-aligned buffers
+                    #[repr(align(16))]
+                    struct Buf([u8; 160]);
+                    let mut bb = Buf([0xA5; 160]);
+                    let mut kb = Buf([0x5A; 160]);
+                    let o = (*off as usize) % 16;
+                    bb.0[o..o + 128].copy_from_slice(&blocks[..128]);
+                    kb.0[o..o + 128].copy_from_slice(&rks[..128]);
+                    let bs: &mut $m::hazmat::Block8 = unsafe { &mut *(bb.0.as_mut_ptr().add(o) as *mut $m::hazmat::Block8) };
+                    let ks: &$m::hazmat::Block8 = unsafe { &*(kb.0.as_ptr().add(o) as *const $m::hazmat::Block8) };
                     match f {
-                        0 => $m::hazmat::cipher_round_par(&mut bs, &ks),
-                        _ => $m::hazmat::equiv_inv_cipher_round_par(&mut bs, &ks),
+                        0 => $m::hazmat::cipher_round_par(bs, ks),
+                        _ => $m::hazmat::equiv_inv_cipher_round_par(bs, ks),
                     }
-                    bs.iter().flat_map(|b| b.to_vec()).collect()
+                    let mut out: Vec<u8> = bs.iter().flat_map(|b| b.to_vec()).collect();
+                    // bytes around the argument and the key argument itself must be untouched
+                    let intact = bb.0[..o].iter().all(|&x| x == 0xA5) && bb.0[o + 128..].iter().all(|&x| x == 0xA5) && kb.0[o..o + 128] == rks[..128];
+                    out.push(intact as u8);
+                    out
                 }};
             }
             match be {
@@ -247,6 +256,7 @@ pub fn model(c: &Case) -> Vec<u8> {
                 }
                 out.extend_from_slice(&b);
             }
+            out.push(1); // surroundings intact
             out
         }
     }
@@ -336,7 +346,7 @@ pub fn hazmat_cases(tier: Tier) -> Vec<Case> {
     let nt = if tier == Tier::Quick { 64 } else { 1024 };
     for t in 0..nt as u64 {
         for f in 0..2u8 {
-            v.push(Case::HazmatPar { f, blocks: al::dense(128, 80, t), rks: al::dense(128, 81, t), be });
+            v.push(Case::HazmatPar { f, blocks: al::dense(128, 80, t), rks: al::dense(128, 81, t), be, off: (t % 16) as u8 });
         }
     }
     for j in 0..8usize {
@@ -348,7 +358,7 @@ pub fn hazmat_cases(tier: Tier) -> Vec<Case> {
             blocks[16 * j..16 * j + 16].copy_from_slice(&al::dense(16, 84, t));
             rks[16 * j..16 * j + 16].copy_from_slice(&al::dense(16, 85, t));
             for f in 0..2u8 {
-                v.push(Case::HazmatPar { f, blocks: blocks.clone(), rks: rks.clone(), be });
+                v.push(Case::HazmatPar { f, blocks: blocks.clone(), rks: rks.clone(), be, off: ((j as u64 * 5 + t) % 16) as u8 });
             }
         }
     }
